@@ -368,3 +368,37 @@ def f12_router_recompiled_on_same_object(case, bucket, detail):
         return False
     t = case.get("target", {})
     return t.get("item", {}).get("k") == "router"
+
+
+@predicate("f24_abi_callee_declaration_cached_by_fp_compile")
+def f24_abi_callee_declaration_cached_by_fp_compile(case, bucket, detail):
+    """F24: ReturnedValue.store_into asks for (and thereby caches) the callee's *scratch-slot* declaration while the
+    caller's body is evaluated - also during a frame-pointer compilation. A later compilation of the same object
+    without frame pointers then finds the ABIReturnSubroutine callee's declaration already built (with older slot ids)
+    and numbers scratch slots in a different order than a fresh process does (equivalent program, different text).
+    Input side: one object, a frame-pointer compilation earlier in the sequence than the differing compilation, which
+    is one without frame pointers; and the program calls an ABIReturnSubroutine (kind 'abi' routine)."""
+    if bucket != "same-object-sequence" or not isinstance(case, dict) or "seq_recipe" not in case:
+        return False
+    import re
+
+    m = re.search(r"compilation #(\d+) ", detail or "")
+    if not m:
+        return False
+    j = int(m.group(1)) - 1
+    cfgs = case.get("cfgs") or []
+    if not (0 <= j < len(cfgs)):
+        return False
+
+    def fp(c):
+        return c["version"] >= 8 and c.get("frame_pointers", True)
+
+    if fp(cfgs[j]) or not any(fp(c) for c in cfgs[:j]):
+        return False
+    r = case["seq_recipe"]
+    abi_idx = {i for i, rt in enumerate(r.get("routines", [])) if rt.get("kind") == "abi"}
+    if not abi_idx:
+        return False
+    from .recipe import nodes as N
+
+    return any(n[0] in ("call", "callN") and n[1] in abi_idx for n in N.recipe_nodes(r))
